@@ -165,6 +165,7 @@ class Unit:
             if n == "Self":
                 if impl is None: raise RsError("Self outside impl")
                 n = impl
+            if n == "_": return ("unknown",)      # `Vec<_>`: left to the initialiser
             if n in self.fi.structs: return ("struct", n)
             if n in self.fi.enums and self.fi.enums[n] is not None:
                 if n not in self.used_enums: self.used_enums.append(n)
@@ -175,6 +176,12 @@ class Unit:
             if n in self.fi.tuple_structs and len(self.fi.tuple_structs[n]) >= 2 \
                     and (self.open_tuple_structs is None or n in self.open_tuple_structs):
                 return ("tuple", [self.resolve(x, n) for x in self.fi.tuple_structs[n]])
+            if n in self.fi.tuple_structs and len(self.fi.tuple_structs[n]) == 1 \
+                    and (self.open_tuple_structs is None or n in self.open_tuple_structs):
+                # newtype `struct ChannelId(Vec<u8>)`: its only component (`x.0` and `ChannelId(v)` are the identity)
+                t1 = self.resolve(self.fi.tuple_structs[n][0], n)
+                self.newtype_reps = getattr(self, "newtype_reps", []) + [t1]
+                return t1
             if n in ("Mutex", "Arc", "RefCell", "MutexGuard", "Rc") and len(t[2]) == 1:
                 return self.resolve(t[2][0], impl)     # trusted: locking is the identity on the protected value
             if n in ("BTreeMap", "OrderedMap", "Map", "HashMap", "UnorderedMap") and len(t[2]) >= 2:
@@ -446,7 +453,10 @@ class FnTranslator:
         params = []
         self.selfk = f["self"]
         if f["self"] in ("val", "valmut"):
-            raise RsError("by-value self receiver is outside the subset")
+            # `self` / `mut self` by value: value semantics anyway (a local `mut self` is shadowed, not returned)
+            f = dict(f); f["self"] = "ref"; self.f = f
+            self.selfk = "ref"
+            self.byval_self = True
         self.trait_self = False
         self.loops = []      # enclosing translated loops (innermost last)
         self.patlets = []    # projections bound by struct patterns, flushed into the arm body
@@ -455,6 +465,11 @@ class FnTranslator:
         if f["self"]:
             if self.impl in u.fi.enum_data or u.fi.enums.get(self.impl) is not None:
                 if f["self"] != "ref": raise RsError("&mut self method of an enum")
+                st = u.resolve(("named", self.impl, []))
+                env["self"] = st
+                params.append(("self", st))
+            elif self.impl in u.fi.tuple_structs and u.resolve(("named", self.impl, []))[0] != "opaque":
+                if f["self"] != "ref": raise RsError("&mut self method of a tuple struct")
                 st = u.resolve(("named", self.impl, []))
                 env["self"] = st
                 params.append(("self", st))
@@ -495,6 +510,7 @@ class FnTranslator:
         info.mut_params = list(self.mut_params)
         info.has_self = bool(params) and params[0][0] == "self"
         info.out_names = [n for n, _ in self.out_parts()]
+        info.returns_guard = "MutexGuard" in repr(f["ret"]) or "RefMut" in repr(f["ret"])
         info.monadic = self.is_result or monadic(ir)
         info.exts = self.exts
         info.ir = ir
@@ -530,7 +546,7 @@ class FnTranslator:
 
     def prescan(self, blk):
         """a `&self` method that mutates through a lock, or calls one that does, returns the new self as well"""
-        if self.selfk != "ref": return
+        if self.selfk != "ref" or getattr(self, "byval_self", False): return
         def walk(e, fn):
             if isinstance(e, tuple):
                 if e and e[0] == "macro": return
@@ -735,6 +751,15 @@ class FnTranslator:
                 if r not in declared and r not in acc: acc.append(r)
             except RsError:
                 pass
+        if k == "mcall" and e[2] in ("or_insert", "and_modify", "or_insert_with", "or_default"):
+            x = e
+            while x[0] == "mcall" and x[2] != "entry": x = x[1]
+            if x[0] == "mcall":
+                try:
+                    r = self.place_root(x[1])
+                    if r not in declared and r not in acc: acc.append(r)
+                except RsError:
+                    pass
         if k == "mcall":
             if e[2] in MUT_METHODS or e[2] == "take" or self.is_mut_self_call(e):
                 try:
@@ -760,6 +785,8 @@ class FnTranslator:
             while t[j].s != "(": j += 1
             return t[j + 1].s == "&" and t[j + 2].s == "mut"
         if impl:
+            info = self.u.fns.get((impl, e[2]))
+            if info is not None and info.mut_self: return True     # also `&self` methods that mutate through a lock
             return mut_recv(self.u.fi.fns.get((impl, e[2])))
         if e[1] == ("path", ["self"]): return False
         # any other receiver (field, alias, local of a struct type of this file): by name, conservatively
@@ -794,6 +821,10 @@ class FnTranslator:
             _, pat, ty, e, line = st
             if e is None: raise RsError("let without initialiser (line %d)" % line)
             want = self.u.resolve(ty, self.impl) if ty is not None else None
+            if want is None and pat[0] == "pvar" and e[0] == "call" and e[1][0] == "path" and len(e[1][1]) == 2 \
+                    and e[1][1][1] in ("new", "with_capacity", "default") and self.f["body"][2] == ("path", [pat[1]]) \
+                    and self.val_ty[0] in ("vec", "map", "umap", "set", "uset"):
+                want = self.val_ty     # `let mut r = Map::new(); …; r`: the variable is the function's result
             al = self.lock_alias(e)
             if al is not None and pat[0] == "pvar":
                 _, at = self.expr(al, env, [], None)
@@ -829,9 +860,14 @@ class FnTranslator:
             if e[0] in ("if", "iflet", "match") and self.has_jump(e):
                 raise RsError("return inside a let initialiser (line %d)" % line)
             pre = []
+            self.last_guard = False
             term, t = self.expr(e, env, pre, want)
+            if self.last_guard and pat[0] == "pvar":
+                # the value of a function that returns a MutexGuard: a copy here, so writes through it would be lost
+                self.guard_vars = getattr(self, "guard_vars", set()) | {pat[1]}
             if want is not None:
-                self.check_ty(t, want, "let at line %d" % line); t = want
+                self.check_ty(t, want, "let at line %d" % line)
+                if "unknown" not in repr(want): t = want
             if t == INTLIT: raise RsError("integer literal without a type (line %d)" % line)
             env2 = dict(env)
             lp = self.bind_pat(pat, t, env2)
@@ -946,6 +982,9 @@ class FnTranslator:
             c = e[4][0]
             body = c[2] if c[2][0] == "block" else ("block", [("expr", c[2], e[5])], None)
             return self.stmt_expr(("iflet", ("pctor", ["Some"], [c[1][0]]), e[1], body, None), rest, tail, env, fin)
+        ent = self.entry_chain(e) if k == "mcall" else None
+        if ent is not None:
+            return self.stmt_expr(ent, rest, tail, env, fin)
         if k in ("mcall", "call", "try"):
             pre = []
             env2 = self.effect_call(e, env, pre)
@@ -1007,6 +1046,44 @@ class FnTranslator:
                 ir = self.stmts([], body, env2, fin)
             out.append((lp, self.wrap(lets, ir)))
         return self.wrap(pre, Match(sterm, out))
+
+    def entry_chain(self, e):
+        """`m.entry(k).or_insert(v)` / `.and_modify(|e| body).or_insert(v)` / `.and_modify(|e| body)` as a statement:
+        rewritten into `if let Some(mut e) = m.get(&k).copied() { body; m.insert(k, e); } else { m.insert(k, v); }`
+        (the key must be a variable or a field path, the default a variable, field path or literal: both are used twice)"""
+        chain = []
+        x = e
+        while x[0] == "mcall" and x[2] in ("or_insert", "and_modify") and len(x[4]) == 1:
+            chain.append((x[2], x[4][0])); x = x[1]
+        if not chain or x[0] != "mcall" or x[2] != "entry" or len(x[4]) != 1: return None
+        chain.reverse()
+        names = [c[0] for c in chain]
+        if names not in (["or_insert"], ["and_modify", "or_insert"], ["and_modify"]):
+            raise RsError("entry API chain %s is outside the subset" % ".".join(names))
+        def simple(a):
+            while a[0] in ("paren", "ref", "deref"): a = a[1]
+            if a[0] == "mcall" and a[2] == "clone" and not a[4]: return simple(a[1])
+            return a[0] in ("int", "bool") or (a[0] == "path" and len(a[1]) == 1) or (a[0] == "field" and simple(a[1]))
+        m, key = x[1], x[4][0]
+        if not simple(key): raise RsError("entry(k) with a key that is not a variable or field path")
+        line = e[5]
+        ins = lambda val: ("expr", ("mcall", m, "insert", None, [key, val], line), line)
+        then_stmts, els = [], None
+        var = "entry_e"
+        if names[0] == "and_modify":
+            c = chain[0][1]
+            if c[0] != "closure" or len(c[1]) != 1 or c[1][0][0] != "pvar": raise RsError("and_modify closure")
+            var = c[1][0][1]
+            body = c[2]
+            then_stmts = list(body[1]) + ([("expr", body[2], line)] if body[2] is not None else []) if body[0] == "block" \
+                else [("expr", body, line)]
+            then_stmts.append(ins(("path", [var])))
+        if names[-1] == "or_insert":
+            v = chain[-1][1]
+            if not simple(v): raise RsError("or_insert(v) with a default that is not a variable, field path or literal")
+            els = ("block", [ins(v)], None)
+        got = ("mcall", ("mcall", m, "get", None, [("ref", key)], line), "copied", None, [], line)
+        return ("iflet", ("pctor", ["Some"], [("pvar", var)]), got, ("block", then_stmts, None), els)
 
     def flush_patlets(self):
         r = [("let", v, term) for v, term in self.patlets]
@@ -1163,6 +1240,8 @@ class FnTranslator:
             if v not in env: raise RsError("assignment to unknown variable %s" % v)
             if env[v][0] == "alias":
                 return self.place_set(env[v][1], new, env, pre)
+            if v in getattr(self, "guard_vars", ()):
+                raise RsError("write through the MutexGuard returned by a function (%s) is outside the subset" % v)
             pre.append(("let", lid(v), new))
             return env
         if k == "field":
@@ -1234,6 +1313,31 @@ class FnTranslator:
             if bt[0] == "map" and bt[1] == ("str",) and e[2] == "remove":
                 k, kt = self.expr(e[4][0], env, pre, ("str",)); self.check_ty(kt, ("str",), "map key")
                 return self.place_set(recv, "(Rs.smapRemove %s %s)" % (base, k), env, pre)
+            if e[2] == "copy_from_slice" and len(e[4]) == 1:
+                dst = recv
+                while dst[0] in ("paren", "ref"): dst = dst[1]
+                U = ("int", "usize")
+                if dst[0] == "index" and dst[2][0] == "range":
+                    place = dst[1]
+                    base, bt2 = self.expr(place, env, pre, None)
+                    _, ra, rb, incl = dst[2]
+                    if incl: raise RsError("copy_from_slice into an inclusive range")
+                    a = "0"
+                    if ra is not None:
+                        a, at = self.expr(ra, env, pre, U); self.check_ty(at, U, "slice start")
+                    b = "%s.length" % base
+                    if rb is not None:
+                        b, btt = self.expr(rb, env, pre, U); self.check_ty(btt, U, "slice end")
+                else:
+                    place = dst
+                    base, bt2 = self.expr(place, env, pre, None)
+                    a, b = "0", "%s.length" % base
+                if bt2[0] != "vec": raise RsError("copy_from_slice on a non-slice")
+                src, st = self.expr(e[4][0], env, pre, bt2)
+                self.check_ty(st, bt2, "copy_from_slice")
+                v = self.fresh("v")
+                pre.append(("bind", v, MCall("Rs.copyFromSlice %s %s %s %s" % (base, self.paren(a), self.paren(b), self.paren(src)))))
+                return self.place_set(place, v, env, pre)
             r = self.mutator(recv, e[2], e[4], env, pre, None, discard=True)
             if r is not None: return env
             raise RsError("mutating method %s on %r is outside the subset" % (e[2], bt[0]))
@@ -1250,7 +1354,11 @@ class FnTranslator:
             raise RsError("? inside a for loop of a function that does not return Result is outside the subset")
         jumps = self.has_jump(body)
         pre = []
-        lst, elt = self.iter_expr(it, env, pre)
+        self.allow_unordered = self.keyed_update_loop(pat, body)
+        try:
+            lst, elt = self.iter_expr(it, env, pre)
+        finally:
+            self.allow_unordered = False
         A = [("self" if env[v][0] == "alias" else v) for v in self.assigned(body, [], set()) if v in env]
         A = [v for i, v in enumerate(A) if v not in A[:i]]
         if not jumps:
@@ -1298,6 +1406,38 @@ class FnTranslator:
             return self.wrap(pre, Match(r, [(".inl %s" % tup, cont(env)), (".inr %s" % v, self.ret_value(v))]))
         pre.append(("bind", tup, MCall("Rs.loopB %s %s %s" % (lst, tup, fn))))
         return self.wrap(pre, cont(env))
+
+    def keyed_update_loop(self, pat, body):
+        """is `for (k, v) in … { m.entry(k)….; }` — a single entry-API statement whose key is the loop's key variable
+        and whose closures/defaults are free of partial operations?"""
+        if pat[0] != "ptuple" or len(pat[1]) != 2 or pat[1][0][0] != "pvar": return False
+        stmts = list(body[1]) + ([("expr", body[2], 0)] if body[2] is not None else [])
+        if len(stmts) != 1 or stmts[0][0] != "expr": return False
+        x = stmts[0][1]
+        n = 0
+        while x[0] == "mcall" and x[2] in ("or_insert", "and_modify") and len(x[4]) == 1:
+            a = x[4][0]
+            if x[2] == "and_modify":
+                b = a[2] if a[0] == "closure" else None
+                # only `*e = min/max(*e, v)` or `*e = v`-style pure updates: no arithmetic that can overflow
+                if b is None or self.has_partial(b): return False
+            x = x[1]; n += 1
+        if n == 0 or x[0] != "mcall" or x[2] != "entry" or len(x[4]) != 1: return False
+        key = x[4][0]
+        while key[0] in ("paren", "ref", "deref"): key = key[1]
+        return key == ("path", [pat[1][0][1]])
+
+    def has_partial(self, e):
+        """syntactic over-approximation of `may panic / overflow / fail`"""
+        if isinstance(e, tuple):
+            if e and e[0] == "binary" and e[1] in ("+", "-", "*", "/", "%", "<<", ">>"): return True
+            if e and e[0] == "assign" and e[1] != "=": return True
+            if e and e[0] in ("index", "try", "macro", "call") and not (e[0] == "call" and e[1][0] == "path" and e[1][1][-1] in ("min", "max", "Some")): return True
+            if e and e[0] == "mcall" and e[2] in ("unwrap", "expect"): return True
+            return any(self.has_partial(x) for x in e[1:])
+        if isinstance(e, list):
+            return any(self.has_partial(x) for x in e)
+        return False
 
     def ret_value(self, v):
         """the function returns the (packed) value `v`: inside an enclosing loop this is `.ret v`"""
@@ -1385,7 +1525,15 @@ class FnTranslator:
         term, t = self.expr(it, env, pre, None)
         if t[0] == "iter": return term, t[1]
         if t[0] == "vec": return term, t[1]
-        if t[0] == "viter" or t[0] in ("umap", "uset") or (t[0] in ("map", "set") and not (t[1] == ("str",) or is_uint(t[1]))):
+        unordered = t[0] == "viter" or t[0] in ("umap", "uset") or (t[0] in ("map", "set") and not (t[1] == ("str",) or is_uint(t[1])))
+        if unordered and getattr(self, "allow_unordered", False) and t[0] in ("map", "umap"):
+            # `for (k, v) in other { m.entry(k)… }`: one update of `m` at the loop key per iteration; the keys of a map
+            # are distinct, so the updates commute and the resulting map does not depend on the order (its list
+            # order does, but no admitted operation observes that)
+            return term, ("tuple", [t[1], t[2]])
+        if unordered and getattr(self, "allow_unordered", False) and t[0] == "viter" and t[1][0] == "tuple":
+            return term, t[1]
+        if unordered:
             raise RsError("iteration over a collection whose order the model does not know")
         if t[0] == "map": return term, ("tuple", [t[1], t[2]])
         if t[0] == "set": return term, t[1]
@@ -1427,6 +1575,8 @@ class FnTranslator:
             return "%s.%s" % (base, lid(e[2])), ft
         if k == "tfield":
             base, bt = self.expr(e[1], env, pre, None)
+            if bt[0] != "tuple" and e[2] == 0 and bt in getattr(self.u, "newtype_reps", []):
+                return base, bt       # `.0` of a newtype listed under tuple_structs
             if bt[0] != "tuple": raise RsError("tuple field on a non-tuple")
             n, i = len(bt[1]), e[2]
             if i >= n: raise RsError("tuple index out of range")
@@ -1622,6 +1772,15 @@ class FnTranslator:
 
     def binary(self, e, env, pre, want):
         _, op, l, r = e
+        # (added for C18, byte_utils.rs) `8 * 7`: arithmetic on two unsuffixed literals is a literal
+        # (folded only while the value stays in 0 .. 2^31-1, where every integer type Rust can infer agrees)
+        ul, ur = l, r
+        while ul[0] == "paren": ul = ul[1]
+        while ur[0] == "paren": ur = ur[1]
+        if op in ("+", "-", "*") and ul[0] == "int" and ur[0] == "int" and not ul[2] and not ur[2]:
+            v = {"+": ul[1] + ur[1], "-": ul[1] - ur[1], "*": ul[1] * ur[1]}[op]
+            if 0 <= v < 2 ** 31:
+                return self.expr(("int", v, None), env, pre, want)
         if op in ("&&", "||"):
             a, at = self.expr(l, env, pre, BOOL)
             pre2 = []
@@ -1804,6 +1963,7 @@ class FnTranslator:
             self.want_result = False
 
     def call_translated(self, info, args_terms, env, pre, self_term=None):
+        if getattr(info, "returns_guard", False): self.last_guard = True
         if getattr(info, "mut_params", None): raise RsError("call of a function with &mut parameters is outside the subset")
         for x in info.exts: self.add_ext(*x)
         for o in info.needs_deq:
@@ -1938,6 +2098,18 @@ class FnTranslator:
                 term, t = self.expr(x, env, pre, ("vec", ("int", "u8")))
                 if t != ("vec", ("int", "u8")): raise RsError("%s on %r" % (name, t))
             return "(Rs.%s %s)" % ("fromBeBytes" if name == "from_be_bytes" else "fromLeBytes", term), ("int", segs[0]), "val"
+        tsn = self.impl if segs == ["Self"] else (segs[-1] if len(segs) == 1 else None)
+        if tsn in self.u.fi.tuple_structs and (self.u.open_tuple_structs is None or tsn in self.u.open_tuple_structs):
+            # constructor of a tuple struct listed under tuple_structs: the tuple of the components / the component
+            tyr = self.u.resolve(("named", tsn, []))
+            comps = tyr[1] if len(self.u.fi.tuple_structs[tsn]) >= 2 else [tyr]
+            if len(comps) != len(args): raise RsError("constructor %s arity" % tsn)
+            terms = []
+            for a_, ft in zip(args, comps):
+                term, t = self.expr(a_, env, pre, ft)
+                self.check_ty(t, ft, "argument of %s(..)" % tsn)
+                terms.append(term)
+            return (terms[0] if len(terms) == 1 else "(" + ", ".join(terms) + ")"), tyr, "val"
         en = (segs[-2] if segs[-2] != "Self" else self.impl) if len(segs) >= 2 else None
         if en in self.u.fi.enum_data and name in [v for v, _ in self.u.fi.enum_data[en]]:
             names, tys = self.u.variant_types(en, name)
@@ -1956,6 +2128,8 @@ class FnTranslator:
         elif len(segs) != 1: raise RsError("call of %s is outside the subset" % "::".join(segs))
         if name in self.u.externals and impl is None:
             return self.call_external(name, args, env, pre)
+        if "::".join(segs) in self.u.externals:
+            return self.call_external("::".join(segs), args, env, pre)
         if (impl, name) in self.u.fi.fns:
             info = self.u.get_fn(impl, name)
             if info.params and info.params[0][0] == "self":
@@ -1966,19 +2140,31 @@ class FnTranslator:
             return self.call_translated(info, a, env, pre)
         raise RsError("call of unknown function %s (not in this file, not declared external)" % "::".join(segs))
 
-    def call_external(self, name, args, env, pre):
+    def call_external(self, name, args, env, pre, first=None):
         spec = self.u.externals[name]
         pts = [self.u.parse_type(s, self.impl) for s in spec["params"]]
         rt = self.u.parse_type(spec["ret"], self.impl)
         if len(pts) != len(args): raise RsError("external %s arity" % name)
         terms = []
+        if first is not None:
+            # a method of a field: the field's value is the first argument (the external is a pure function of it:
+            # only read-only methods may be declared this way)
+            terms.append(self.paren(first[0])); pts = [first[1]] + pts; args = [None] + list(args)
         for a, pt in zip(args, pts):
+            if a is None: continue
             term, t = self.expr(a, env, pre, pt)
             self.check_ty(t, pt, "argument of external %s" % name)
             terms.append(term if " " not in term or term.startswith("(") else "(" + term + ")")
+        lname = "ext_" + name.replace(".", "_").replace("::", "_")
+        if rt[0] == "result":
+            # a Result-returning external: a computation of the outcome monad (only `?` / tail position use it)
+            lty = " → ".join([self.u.lt(t, False) for t in pts] + ["Rs.M " + self.u.lt(rt[1], False)])
+            self.add_ext(lname, lty)
+            return ("%s %s" % (lname, " ".join(terms))).rstrip(), rt[1], "comp"
         lty = " → ".join([self.u.lt(t, False) for t in pts] + [self.u.lt(rt, False)])
-        self.add_ext("ext_" + name, lty)
-        return "(ext_%s %s)" % (name, " ".join(terms)), rt, "val"
+        self.add_ext(lname, lty)
+        if not terms: return lname, rt, "val"
+        return "(%s %s)" % (lname, " ".join(terms)), rt, "val"
 
     def mcall(self, e, env, pre, want):
         _, recv, m, turbo, args, line = e
@@ -1998,10 +2184,12 @@ class FnTranslator:
                     for x in info.exts: self.add_ext(*x)
                     self.callees.append(info.lean_name)
                     if not self.is_result: raise RsError("Result method called outside a Result function")
+                    if not getattr(self, "want_result", False):
+                        raise RsError("Result of the state-updating call %s used other than by `?` or in tail position" % m)
                     if info.val_ty == UNIT:
-                        pre.append(("bind", "self", MCall(call))); return "()", UNIT, "val"
+                        pre.append(("bind", "self", MCall(call))); return "()", UNIT, "tried"
                     pre.append(("bind", "(self, %s)" % v, MCall(call)))
-                    return v, info.val_ty, "val"
+                    return v, info.val_ty, "tried"
                 term, t, kind = self.call_translated(info, a, env, pre, "self")
                 if info.val_ty == UNIT:
                     pre.append(("let", "self", term)); return "()", UNIT, "val"
@@ -2009,6 +2197,10 @@ class FnTranslator:
                 pre.append(("let", "(self, %s)" % v, term))
                 return v, info.val_ty, "val"
             return self.call_translated(info, a, env, pre, "self")
+        if recv[0] == "field" and recv[1] == ("path", ["self"]) and ("%s.%s" % (recv[2], m)) in self.u.externals:
+            # method of a (generic / foreign) field declared external in the target list: `self.local.get(k)`
+            ft, fty = self.expr(recv, env, pre, None)
+            return self.call_external("%s.%s" % (recv[2], m), args, env, pre, first=(ft, fty))
         if recv == ("path", ["self"]) and self.trait_self and (self.impl, m) in self.u.fi.decl_only:
             return self.decl_external(self.impl, m, args, env, pre)
         if recv[0] == "path" and len(recv[1]) == 1 and recv[1][0] not in env and recv[1][0] != "self":
@@ -2054,6 +2246,11 @@ class FnTranslator:
             return v, bt, "val"
         base, bt = self.expr(recv, env, pre, None)
         k = bt[0]
+        if m == "lock" and not args and k not in ("opaque", "iter", "viter", "lockres"):
+            return base, ("lockres", bt), "val"      # trusted: locking is the identity on the protected value
+        if k == "lockres":
+            if m in ("unwrap", "expect"): return base, bt[1], "val"
+            raise RsError("lock result used other than by unwrap/expect")
         if m in ("clone", "copied", "cloned", "as_ref", "to_owned", "borrow") and not args and k not in ("iter", "viter"):
             return base, bt, "val"
         if m == "into" and not args:
@@ -2196,6 +2393,12 @@ class FnTranslator:
                 setp("(%s %s %s)" % (rem, base, kk)); return v, ("opt", bt[2]), "val"
             if m == "clear" and not args:
                 setp("[]"); return "()", UNIT, "val"
+            if m == "retain" and len(args) == 1 and args[0][0] == "closure" and len(args[0][1]) == 2:
+                base, _ = self.expr(recv, env, pre, None)
+                pats, ir, t = self.closure1(args[0], [bt[1], bt[2]], env, BOOL)
+                if monadic(ir): raise RsError("effectful predicate closure")
+                self.check_ty(t, BOOL, "retain")
+                setp("(%s.filter (fun (%s, %s) => %s))" % (base, pats[0], pats[1], inline(ir))); return "()", UNIT, "val"
             return None
         if k in ("set", "uset"):
             self.note_eq(bt[1])
@@ -2371,7 +2574,7 @@ MUTATORS = ("push", "push_back", "push_front", "pop", "pop_back", "pop_front", "
             "retain", "drain", "reverse", "get_or_insert", "replace", "insert", "clear")
 MUT_METHODS = ("resize", "insert", "push", "clear", "truncate", "extend", "remove", "pop", "retain", "drain", "sort",
                "iter_mut", "push_front", "push_back", "pop_front", "pop_back", "append", "extend_from_slice", "reverse",
-               "get_or_insert", "replace")
+               "get_or_insert", "replace", "copy_from_slice")
 
 
 def fn_lean_lines(info):
